@@ -333,7 +333,11 @@ class AsyncServer(base_server.BaseServer):
                     r = self._ok(jsonp_index=jsonp_index)
                 except exceptions.EngineIOError:
                     if sid in self.sockets:  # pragma: no cover
-                        await self.disconnect(sid)
+                        # protocol error: end the session without waiting for
+                        # the client to collect the CLOSE packet
+                        await socket.close(
+                            wait=False, reason=self.reason.SERVER_DISCONNECT)
+                        self.sockets.pop(sid, None)
                     r = self._bad_request()
                 except:  # pragma: no cover
                     # for any other unexpected errors, we log the error
